@@ -77,7 +77,7 @@ def run_leg(ctx, tools, n_programs, opts=None, tag="wgslleg"):
         k = semdiff.classify(o)
         if k == "agree":
             stats["agree"] += 1
-        elif k in ("wgsl_outoffuel", "ir_outoffuel"):
+        elif k in ("wgsl_outoffuel", "ir_outoffuel", "wgsl_timeout", "ir_timeout"):
             stats["outoffuel"] += 1
         elif k == "DIFFER" or k.startswith("ir_fail") or k.startswith("wgsl_fail"):
             c = cases[o["case"]]
